@@ -72,10 +72,27 @@ def main():
             print(f"KNOWN-FINDING: property={prop} {e['id']} {e['what']}")
             known_seen.append(e["id"])
 
+    # 1b. saved failing inputs of defects that were repaired (regress/<ID>-*.json): replayed on every run, both tiers
+    reg_fails = []
+    reg_n = 0
+    import glob
+
+    for path in sorted(glob.glob(os.path.join(os.path.dirname(os.path.dirname(os.path.abspath(__file__))), "regress", f"{prop}-*.json"))):
+        with open(path) as f:
+            body = json.load(f)
+        try:
+            reg_fails += mod.replay(unjson(body["case"]))
+        except Exception as ex:
+            print(f"HARNESS-ERROR property={prop}: regression input {os.path.basename(path)} raised {ex!r}")
+            return 2
+        reg_n += 1
+
     # 2. campaign
     specs = mod.shards(args.tier, seed)
     cap = getattr(mod, "WALL_CAP", {"quick": 900, "thorough": 5400})[args.tier]
     stats, errors = runner.run_shards(modname, specs, args.jobs, cap)
+    stats.failures = reg_fails + list(stats.failures)
+    stats.extra["regression_inputs_replayed"] = reg_n
     wall = time.time() - t0
 
     # 3. failures -> known / violation
